@@ -62,6 +62,7 @@ def gen_program(rng, kind=None):
     return {"kind": kind, "p": rng.randint(0, n), "n": n, # (EOFError, the last entry, is the recorded finding: kept rare, and left to the plain "body" kind, where no 15 s wait for a warning is involved)
             "exc": (len(EXCS) - 1) if (rng.random() < 0.03 and kind != "body_peer_dropped") else rng.randrange(len(EXCS) - 1),
             "dropped": rng.random() < 0.4,
+            "own_exec_channel": rng.random() < 0.35,
             "consume": rng.choice(("receive", "waitclose_first", "concurrent")), "siblings": rng.choice((0, 2, 3))}
 
 
@@ -310,7 +311,13 @@ def run_program(res: Result, lab, prog, label, hid):
                 res.violation(m("peer-channel-not-closed-after-failure"), label)
         else:
             # a callback raises on side X; the other side Y is the peer
-            lc, rc = lab.pair_newchannel_local() if hid % 2 else lab.pair_newchannel_remote()
+            fin_exec = None
+            if kind == "callback_remote" and prog.get("own_exec_channel") and not prog["dropped"]:
+                # the failing callback was registered by a remote body on its *own* channel, and that body is still running
+                lc, rc, fin_exec = lab.pair_remote_exec()
+                res.count("callbacks_on_a_running_bodys_own_channel")
+            else:
+                lc, rc = lab.pair_newchannel_local() if hid % 2 else lab.pair_newchannel_remote()
             X, Y = (lc, rc) if kind == "callback_local" else (rc, lc)
             del lc, rc
             boom = Boom(p, exc)
@@ -381,6 +388,8 @@ def run_program(res: Result, lab, prog, label, hid):
                     res.violation(m(f"failing-side-waitclose-raised-{type(e).__name__}"), f"{label}: {e}")
                 if not X.isclosed():
                     res.violation(m("failing-side-channel-not-closed"), label)
+            if fin_exec is not None:
+                fin_exec.set()
     finally:
         stop.set()
     for t, log in sibs:
